@@ -75,6 +75,13 @@ def make(backend, system, flavor, rows, cfg, variant):
         return B.make_ak(system, flavor, rows, cfg, extra=extra)
     if backend == "AKR" and variant == "extra":
         return B.make_akr(system, flavor, rows[0], extra={"charge": 7})
+    if backend in ("AKA", "AKR") and variant == "annotated":
+        # record-level parameters besides the record name (documentation, units): they belong to the operand too
+        plain = B.make_ak(system, flavor, rows, cfg if backend == "AKA" and cfg in ("flat", "jagged") else "flat")
+        cols = {f: plain[f] for f in ak.fields(plain)}
+        name = plain.layout.purelist_parameter("__record__")
+        a = ak.zip(cols, with_name=name, parameters={"__doc__": "annotated operand", "units": "GeV"}, behavior=vector.backends.awkward.behavior)
+        return a[0] if backend == "AKR" else a
     return C03.make(backend, system, flavor, rows, cfg)
 
 
@@ -154,8 +161,10 @@ def run_ops(res, shard, tier):
             for cfga, cfgb in C03.configs(ba, bb, tier):
                 if cfga == "empty" or cfgb == "empty":
                     continue
-                for variant in ("plain", "extra", "view"):
+                for variant in ("plain", "extra", "view", "annotated"):
                     if variant == "view" and "NP" not in (ba, bb):
+                        continue
+                    if variant == "annotated" and not ({ba, bb} & {"AKA", "AKR"}):
                         continue
                     if variant == "extra" and ba == "OBJ" and bb in (None, "OBJ"):
                         continue
@@ -196,7 +205,7 @@ def run_misc(res, dim, system, tier):
     rows_o = [tuple(float(x) for x in S.stored(v, other_sys)) for v in vs if S.stored(v, other_sys) is not None and S.stored(v, system) is not None]
     for flavor in ("generic", "momentum"):
         for backend, cfg, variant in (("OBJ", None, "plain"), ("NP", "1d", "plain"), ("NP", "1d", "extra"), ("NP", "1d", "view"), ("NP", "2d", "plain"), ("NP", "swapped", "plain"), ("NP", "strided", "plain"), ("NP", "F2d", "plain"),
-                                      ("AKA", "jagged", "plain"), ("AKA", "jagged", "extra"), ("AKA", "optrec", "plain"), ("AKA", "nested3", "plain"), ("AKR", None, "extra")):
+                                      ("AKA", "jagged", "plain"), ("AKA", "jagged", "extra"), ("AKA", "flat", "annotated"), ("AKA", "jagged", "annotated"), ("AKR", None, "annotated"), ("AKA", "optrec", "plain"), ("AKA", "nested3", "plain"), ("AKR", None, "extra")):
             try:
                 v = make(backend, system, flavor, rows, cfg, variant)
                 w = make(backend, other_sys, flavor, rows_o, cfg, "plain")
